@@ -72,3 +72,24 @@ check('C07', 'proof',
       "record object with symbolic T_ref/P_ref and an ideal-gas eos; its requires Sfus = Hfus/Tm is discharged for _init_data only. Structure <= 4 chemicals. Not covered: "
       "database sweep (B), pure-component excess functors on real eos objects, EOSMixture. 2 defects repaired.",
       "deductive: sidecar contracts + VC generation by symbolic execution of the real loop-free functions with uninterpreted integrals, z3 discharge, native replay", "DESIGN.md 4/C07")
+check('C10', 'proof',
+      "Mode S (proof per enumerated structure, values unbounded): for private compiled chemical sets of 1-4 chemicals (quick; reads up to 8, multi-phase writes up to 6 in "
+      "thorough) with user aliases and 1-3 groups, phase sets {g,l}, {L,l} (thorough adds {g,l,s}, {L,S,g,l,s}, single phase) and every key form of the statement, each read "
+      "through ChemicalIndexer, MaterialIndexer and SplitIndexer equals the positional read of the raw sparse dicts; each write is read back unchanged, leaves all other "
+      "entries untouched and distributes a scalar over a group by its composition, for all real values; under six lookup histories (fresh; 101, 501 and (thorough) 1201 "
+      "distinct keys with every intermediate lookup checked so that both bounded caches fill and evict; cross-package mix, copy, separate; group re-definition and late "
+      "naming) with the cache-coherence invariant (every cached entry equals what the miss branch computes) asserted after each.",
+      "A-real, A-cpython; structure bounded by the configurations; real sparse kernels. Oracle: an independent name->position table built from the configuration and the "
+      "Chemical objects' ID/CAS/database names. The planned size-generic (mode U) proof of cache coherence was not built: coherence is discharged per enumerated structure. "
+      "5 defects found by this check were repaired.",
+      "deductive: sidecar contracts + VC generation by symbolic execution of the real functions, z3 discharge, native replay", "DESIGN.md 4/C10")
+check('C20', 'proof',
+      "For every enumerated structure (<= 4 chemicals, <= 3 inlets, single/multi-phase, scalar/vector splits, forced top/bottom chemicals, strict/lenient) and all real-valued "
+      "flows, splits in [0,1], K in [1e-3,1e3], moisture in (0,0.95), efficiencies in [0,1]: the real mix_and_split, adjust_moisture_content, "
+      "mix_and_split_with_moisture_content, phase_split, partition, phase_fraction, handle_infeasible_flow_rates, check_partition_infeasibility, partition_coefficients, "
+      "chemical_splits, material_balance('flow') and the lle/vle wrappers close the per-chemical balance from ARBITRARY prior outlet contents, give no negative flow unless "
+      "they report infeasibility, and meet their targets, with inlets/feed/arguments unchanged. partition/phase_fraction are proved for any solver output phi (all three regimes).",
+      "A-real, A-cpython; compute_phase_fraction havoc'ed (any real phi); np.linalg.solve by A-linsolve; stream.vle/.lle replaced by their C03 contract (arbitrary non-negative "
+      "split conserving each chemical); energy side havoc'ed; partition/phase_fraction/wrappers run on the C09 kernel contracts (L0). A small grid on the real solvers is mode B "
+      "(bounded, not counted). Known finding F-C20-5 printed as KNOWN-FINDING; 4 defects repaired.",
+      "deductive: sidecar contracts + VC generation by symbolic execution of the real functions, z3 discharge, native replay", "DESIGN.md 4/C20")
